@@ -14,14 +14,14 @@
 (*                                                                         *)
 (* Safety: the watchdog never writes a flag other than the decision of a   *)
 (* round it has stored, and never writes when it has not enough data.      *)
-(* Liveness (fair ticks, no operator interference after some point, at     *)
-(* least MinExp honest explorers): a canister that stays more than Behind  *)
+(* Liveness (fair ticks, finitely many operator interventions and failed   *)
+(* calls, at least MinExp honest explorers): a canister that stays more than Behind  *)
 (* blocks behind is eventually disabled for good; one that stays in the    *)
 (* band is eventually enabled for good.                                    *)
 (***************************************************************************)
 EXTENDS Watchdog, TLC
 
-CONSTANTS NProviders, MinExp, Behind, Ahead, MaxH, MaxOps, Ticks
+CONSTANTS NProviders, MinExp, Behind, Ahead, MaxH, MaxOps, MaxFaults, Ticks
 
 Providers == 1..NProviders
 
@@ -34,29 +34,32 @@ VARIABLES H,        \* height of the network
           target,   \* tick id -> the target computed by this tick (-1 = none)
           actual,   \* tick id -> the flag read by this tick
           ops,      \* number of operator interventions so far
+          faults,   \* number of failed inter-canister calls so far (bounded: eventually calls succeed)
           writes    \* history: the flags the watchdog wrote together with the decision they came from
 
-vars == <<H, ch, api, stored, sheight, pc, target, actual, ops, writes>>
+vars == <<H, ch, api, stored, sheight, pc, target, actual, ops, faults, writes>>
 
 Init ==
   /\ H = 2 /\ ch \in {0, 2} /\ api \in {0, 1}
   /\ stored = [p \in Providers |-> None] /\ sheight = None
   /\ pc = [t \in Ticks |-> "idle"] /\ target = [t \in Ticks |-> -1] /\ actual = [t \in Ticks |-> -1]
-  /\ ops = 0 /\ writes = {}
+  /\ ops = 0 /\ faults = 0 /\ writes = {}
 
 \* environment
-Mine == H < MaxH /\ H' = H + 1 /\ UNCHANGED <<ch, api, stored, sheight, pc, target, actual, ops, writes>>
-Sync == ch < H /\ ch' = ch + 1 /\ UNCHANGED <<H, api, stored, sheight, pc, target, actual, ops, writes>>
+Mine == H < MaxH /\ H' = H + 1 /\ UNCHANGED <<ch, api, stored, sheight, pc, target, actual, ops, faults, writes>>
+Sync == ch < H /\ ch' = ch + 1 /\ UNCHANGED <<H, api, stored, sheight, pc, target, actual, ops, faults, writes>>
 Operator == ops < MaxOps /\ api' = 1 - api /\ ops' = ops + 1
-            /\ UNCHANGED <<H, ch, stored, sheight, pc, target, actual, writes>>
+            /\ UNCHANGED <<H, ch, stored, sheight, pc, target, actual, faults, writes>>
 
 \* an explorer answers the true height, lags by one, or fails; at most one provider is wrong per round
 Answers == {r \in [Providers -> {H, H - 1, None}] : Cardinality({p \in Providers : r[p] # H}) <= 1}
 
 Fetch(t) ==
   /\ pc[t] = "idle"
-  /\ \E r \in Answers, c \in {ch, None} :
-       /\ stored' = r /\ sheight' = c
+  /\ \E r \in Answers :
+       /\ stored' = r
+       /\ \/ sheight' = ch /\ UNCHANGED faults
+          \/ faults < MaxFaults /\ sheight' = None /\ faults' = faults + 1     \* the call for the canister's height failed
   /\ pc' = [pc EXCEPT ![t] = "decide"]
   /\ UNCHANGED <<H, ch, api, target, actual, ops, writes>>
 
@@ -67,12 +70,12 @@ Decide(t) ==
   /\ pc[t] = "decide"
   /\ target' = [target EXCEPT ![t] = D.flag]
   /\ pc' = [pc EXCEPT ![t] = IF D.flag = -1 THEN "idle" ELSE "read"]
-  /\ UNCHANGED <<H, ch, api, stored, sheight, actual, ops, writes>>
+  /\ UNCHANGED <<H, ch, api, stored, sheight, actual, ops, faults, writes>>
 
 ReadActual(t) ==
   /\ pc[t] = "read"
-  /\ \/ actual' = [actual EXCEPT ![t] = api]             \* get_config answered
-     \/ actual' = [actual EXCEPT ![t] = -1]              \* the call failed: actual = None # target
+  /\ \/ actual' = [actual EXCEPT ![t] = api] /\ UNCHANGED faults                         \* get_config answered
+     \/ faults < MaxFaults /\ actual' = [actual EXCEPT ![t] = -1] /\ faults' = faults + 1   \* the call failed: actual = None # target
   /\ pc' = [pc EXCEPT ![t] = "update"]
   /\ UNCHANGED <<H, ch, api, stored, sheight, target, ops, writes>>
 
@@ -81,8 +84,9 @@ Update(t) ==
   /\ IF target[t] # actual[t]
      THEN \/ /\ api' = target[t]                          \* set_config delivered
              /\ writes' = writes \cup {[flag |-> target[t]]}
-          \/ UNCHANGED <<api, writes>>                    \* the call failed
-     ELSE UNCHANGED <<api, writes>>
+             /\ UNCHANGED faults
+          \/ faults < MaxFaults /\ faults' = faults + 1 /\ UNCHANGED <<api, writes>>       \* the call failed
+     ELSE UNCHANGED <<api, writes, faults>>
   /\ pc' = [pc EXCEPT ![t] = "idle"]
   /\ UNCHANGED <<H, ch, stored, sheight, target, actual, ops>>
 
@@ -106,17 +110,13 @@ SingleTickWritesItsDecision ==
   Cardinality(Ticks) = 1 => \A t \in Ticks : pc[t] \in {"read", "update"} => target[t] = D.flag
 
 \* ---------------------------------------------------------------- liveness
-Fair ==
-  /\ \A t \in Ticks : WF_vars(Fetch(t)) /\ WF_vars(Decide(t)) /\ WF_vars(ReadActual(t)) /\ WF_vars(Update(t))
-  \* calls eventually succeed: a tick that keeps trying eventually reads the flag and delivers its update
-  /\ \A t \in Ticks : SF_vars(pc[t] = "read" /\ ReadActual(t) /\ actual'[t] # -1)
-  /\ \A t \in Ticks : SF_vars(pc[t] = "update" /\ Update(t) /\ (target[t] = actual[t] \/ api' = target[t]))
-  /\ \A t \in Ticks : SF_vars(Fetch(t) /\ sheight' # None)
+\* every step of a tick is eventually taken; failures are bounded (MaxFaults), so calls eventually succeed
+Fair == \A t \in Ticks : WF_vars(Fetch(t)) /\ WF_vars(Decide(t)) /\ WF_vars(ReadActual(t)) /\ WF_vars(Update(t))
 LiveSpec == Spec /\ Fair
 
 Stuck == ch < H - Behind                         \* more than Behind blocks behind the network
 InBand == ch >= H - Behind + 1                   \* within the band even for an explorer lagging by one
-Quiet == ops = MaxOps /\ H = MaxH                \* the environment has settled
+Quiet == ops = MaxOps /\ H = MaxH /\ faults = MaxFaults      \* the environment has settled
 
 \* if the canister stays behind (it stopped syncing), the API is eventually disabled for good
 BehindIsDisabled == <>[](Quiet /\ Stuck) => <>[](api = 0)
